@@ -16,7 +16,11 @@
 #include <gemmi/symmetry.hpp>
 #include <gemmi/select.hpp>
 #include <gemmi/input.hpp>
+#include <gemmi/read_cif.hpp>
+#include <gemmi/mmread_gz.hpp>
+#include <zlib.h>
 #include <fstream>
+#include <cstring>
 #include <csignal>
 #include <unistd.h>
 using namespace gemmi;
@@ -126,6 +130,48 @@ static std::string handle(const std::string& cmd, const std::string& args) {
     std::string out = std::to_string(r.size());
     for (const FastaSeq& f : r) out += " " + hv::hex_encode(f.header) + " " + hv::hex_encode(f.seq);
     return out;
+  }
+  if (cmd == "gzfile") {       // gzfile <cif|json|st|pdb> <path> <mode> <seed>: corrupted gzip container through the *_gz readers
+    std::ifstream f(w.at(1), std::ios::binary);
+    std::string plain((std::istreambuf_iterator<char>(f)), std::istreambuf_iterator<char>());
+    if (plain.size() > 65536) plain.resize(65536);
+    int mode = (int) to_ll(w.at(2));
+    Lcg rng((unsigned long long) to_ll(w.at(3)));
+    if (mode == 5 && !plain.empty())   // the text itself cut before compression
+      plain.resize(rng.next() % plain.size());
+    std::string gz(compressBound((uLong) plain.size()) + 64, '\0');
+    z_stream zs{};
+    deflateInit2(&zs, 6, Z_DEFLATED, 15 + 16, 8, Z_DEFAULT_STRATEGY);
+    zs.next_in = (Bytef*) plain.data(); zs.avail_in = (uInt) plain.size();
+    zs.next_out = (Bytef*) &gz[0]; zs.avail_out = (uInt) gz.size();
+    deflate(&zs, Z_FINISH);
+    gz.resize(zs.total_out);
+    deflateEnd(&zs);
+    static const unsigned isize_vals[] = {0u, 1u, 100u, 0x7fffffffu, 0x80000000u, 0xffffffffu, 65536u, 3u << 30};
+    switch (mode) {
+      case 1: gz.resize(rng.next() % (gz.size() + 1)); break;                      // truncated container
+      case 2: for (int i = 0; i < 3; ++i) gz[rng.next() % gz.size()] ^= char(1 << (rng.next() % 8)); break;
+      case 3: { unsigned v = isize_vals[rng.next() % 8]; std::memcpy(&gz[gz.size() - 4], &v, 4); break; }   // ISIZE trailer
+      case 4: gz += gz.substr(0, rng.next() % (gz.size() + 1)); break;                // second (partial) member
+      case 6: gz[rng.next() % std::min<size_t>(gz.size(), 12)] = (char) (rng.next() & 0xff); break;   // gzip header bytes
+      default: break;
+    }
+    const std::string& kind = w.at(0);
+    std::string path = "/tmp/verif_gzr_" + std::to_string((int) getpid()) +
+                       (kind == "cif" ? ".cif.gz" : kind == "json" ? ".json.gz" : kind == "pdb" ? ".pdb.gz" : ".ent.gz");
+    if (kind == "st") path = "/tmp/verif_gzr_" + std::to_string((int) getpid()) + (rng.next() % 2 ? ".cif.gz" : ".pdb.gz");
+    { std::ofstream o(path, std::ios::binary); o.write(gz.data(), (std::streamsize) gz.size()); }
+    alarm(20);
+    std::string r = "OK";
+    try {
+      if (kind == "cif") read_cif_gz(path, (int) (rng.next() % 3));
+      else if (kind == "json") read_mmjson_gz(path);
+      else if (kind == "pdb") read_pdb_gz(path);
+      else read_structure_gz(path);
+    } catch (std::exception&) { r = "EXC"; }
+    alarm(0);
+    std::remove(path.c_str());
+    return r;
   }
   if (cmd == "linecut") {      // linecut <kind> <opt> <path> <line_start> <col> <pad>: one line cut short at a column
     std::ifstream f(w.at(2), std::ios::binary);
